@@ -2,6 +2,7 @@
 # usage: tools/run_all.sh [quick|thorough]   -- runs every registered check of MANIFEST.json; prints one line per check; exit 1 if any is not 0
 cd "$(dirname "$0")/.." || exit 2
 tier=${1:-quick}
+mkdir -p .work
 rc=0
 for id in $(python3 -c "import json;print(' '.join(c['property_id'] for c in json.load(open('MANIFEST.json'))['checks']))"); do
   ./check "$id" --tier "$tier" > ".work/run_${tier}_$id.log" 2>&1
